@@ -140,74 +140,103 @@ theorem mem_kids_hash (sl : List Elem) (f lo hi : Nat) (d : D) :
   · rintro ⟨t, ⟨i, hi', rfl⟩, ht⟩; exact ⟨i, hi', ht⟩
   · rintro ⟨i, hi', ht⟩; exact ⟨_, ⟨i, hi', rfl⟩, ht⟩
 
-/-- **equal digests, equal contents** — for two canonical subtrees with the same depth budget,
-over possibly different ranges and different contents. (No positional argument is needed although
-`calcDividedHash` drops nil children: a child digest determines the child's contents.) -/
+/-- the two shapes of a canonical subtree under the width hypothesis -/
+theorem build_cases (sl : List Elem) (f lo hi : Nat) (hw : WidthOk S p sl f lo hi) :
+    ((slRange sl lo hi).length ≤ p.thr ∧ build A S p sl f lo hi = mkLeaf A sl lo hi) ∨
+    (∃ g, f = g + 1 ∧ (slRange sl lo hi).length > p.thr ∧
+      build A S p sl f lo hi = .div (slRange sl lo hi).length
+        (kidsHash A (buildKids A S p sl g lo hi)) (buildKids A S p sl g lo hi) ∧
+      SplitOk S p.df lo hi ∧
+      ∀ i, i < p.df → WidthOk S p sl g (S.child lo hi p.df i).1 (S.child lo hi p.df i).2) := by
+  cases f with
+  | zero =>
+    simp only [WidthOk] at hw
+    left; exact ⟨hw, by rw [build_zero, if_neg (by omega)]⟩
+  | succ g =>
+    by_cases hc : (slRange sl lo hi).length > p.thr
+    · right
+      rcases hw with h | h
+      · omega
+      · exact ⟨g, rfl, hc, by rw [build_succ, if_pos hc], h.1, h.2⟩
+    · left; exact ⟨by omega, by rw [build_succ, if_neg hc]⟩
+
+/-- equal divided digests: the unions of the children's contents agree, provided equal child
+digests mean equal child contents. No positional argument is needed although `calcDividedHash`
+drops nil children. -/
+theorem kids_match (hA : DigOk A) (sl sl' : List Elem) (g g' lo hi lo' hi' : Nat)
+    (hs : SplitOk S p.df lo hi) (hs' : SplitOk S p.df lo' hi')
+    (hwk : ∀ i, i < p.df → WidthOk S p sl g (S.child lo hi p.df i).1 (S.child lo hi p.df i).2)
+    (hwk' : ∀ i, i < p.df → WidthOk S p sl' g' (S.child lo' hi' p.df i).1 (S.child lo' hi' p.df i).2)
+    (H : ∀ i j, i < p.df → j < p.df →
+      (build A S p sl g (S.child lo hi p.df i).1 (S.child lo hi p.df i).2).hash
+        = (build A S p sl' g' (S.child lo' hi' p.df j).1 (S.child lo' hi' p.df j).2).hash →
+      ∀ x, x ∈ pairs (slRange sl (S.child lo hi p.df i).1 (S.child lo hi p.df i).2) ↔
+           x ∈ pairs (slRange sl' (S.child lo' hi' p.df j).1 (S.child lo' hi' p.df j).2))
+    (hk : kidsHash A (buildKids A S p sl g lo hi) = kidsHash A (buildKids A S p sl' g' lo' hi')) :
+    ∀ x, x ∈ pairs (slRange sl lo hi) ↔ x ∈ pairs (slRange sl' lo' hi') := by
+  intro x
+  have hk' : (buildKids A S p sl g lo hi).filterMap Tree.hash
+      = (buildKids A S p sl' g' lo' hi').filterMap Tree.hash := by
+    simp only [kidsHash, Option.some.injEq] at hk
+    exact hA.hN_inj hk
+  rw [content_union S p sl lo hi hs, content_union S p sl' lo' hi' hs']
+  constructor
+  · rintro ⟨i, hid, hx⟩
+    have hne : slRange sl (S.child lo hi p.df i).1 (S.child lo hi p.df i).2 ≠ [] := by
+      intro he; rw [he] at hx; simp [pairs] at hx
+    cases hd : (build A S p sl g (S.child lo hi p.df i).1 (S.child lo hi p.df i).2).hash with
+    | none => exact absurd (hash_none_empty A S p sl g _ _ (hwk i hid) hd) hne
+    | some d =>
+      have hm : d ∈ (buildKids A S p sl g lo hi).filterMap Tree.hash :=
+        (mem_kids_hash A S p sl g lo hi d).mpr ⟨i, hid, hd⟩
+      rw [hk'] at hm
+      obtain ⟨j, hj, hdj⟩ := (mem_kids_hash A S p sl' g' lo' hi' d).mp hm
+      exact ⟨j, hj, (H i j hid hj (by rw [hd, hdj]) x).mp hx⟩
+  · rintro ⟨j, hj, hx⟩
+    have hne : slRange sl' (S.child lo' hi' p.df j).1 (S.child lo' hi' p.df j).2 ≠ [] := by
+      intro he; rw [he] at hx; simp [pairs] at hx
+    cases hd : (build A S p sl' g' (S.child lo' hi' p.df j).1 (S.child lo' hi' p.df j).2).hash with
+    | none => exact absurd (hash_none_empty A S p sl' g' _ _ (hwk' j hj) hd) hne
+    | some d =>
+      have hm : d ∈ (buildKids A S p sl' g' lo' hi').filterMap Tree.hash :=
+        (mem_kids_hash A S p sl' g' lo' hi' d).mpr ⟨j, hj, hd⟩
+      rw [← hk'] at hm
+      obtain ⟨i, hid, hdi⟩ := (mem_kids_hash A S p sl g lo hi d).mp hm
+      exact ⟨i, hid, (H i j hid hj (by rw [hd, hdi]) x).mpr hx⟩
+
+/-- **equal digests, equal contents** — for two canonical subtrees, over possibly different
+ranges, contents and depth budgets. -/
 theorem build_hash_inj (hA : DigOk A) (sl sl' : List Elem) :
-    ∀ f lo hi lo' hi', WidthOk S p sl f lo hi → WidthOk S p sl' f lo' hi' →
-      (build A S p sl f lo hi).hash = (build A S p sl' f lo' hi').hash →
+    ∀ f f' lo hi lo' hi', WidthOk S p sl f lo hi → WidthOk S p sl' f' lo' hi' →
+      (build A S p sl f lo hi).hash = (build A S p sl' f' lo' hi').hash →
       ∀ x, x ∈ pairs (slRange sl lo hi) ↔ x ∈ pairs (slRange sl' lo' hi') := by
   intro f
   induction f with
   | zero =>
-    intro lo hi lo' hi' hw hw' hh x
-    simp only [WidthOk] at hw hw'
-    rw [build_zero, build_zero, if_neg (by omega), if_neg (by omega)] at hh
-    have := elemsHash_inj A hA _ _ hh
-    rw [this]
-  | succ f ih =>
-    intro lo hi lo' hi' hw hw' hh x
-    rw [build_succ, build_succ] at hh
-    by_cases hc : (slRange sl lo hi).length > p.thr
-    · by_cases hc' : (slRange sl' lo' hi').length > p.thr
-      · -- both divided
-        rw [if_pos hc, if_pos hc'] at hh
-        have hk : (buildKids A S p sl f lo hi).filterMap Tree.hash
-            = (buildKids A S p sl' f lo' hi').filterMap Tree.hash := by
-          simp only [Tree.hash, kidsHash, Option.some.injEq] at hh
-          exact hA.hN_inj hh
-        have hs : SplitOk S p.df lo hi ∧ ∀ i, i < p.df →
-            WidthOk S p sl f (S.child lo hi p.df i).1 (S.child lo hi p.df i).2 := by
-          rcases hw with h | h
-          · omega
-          · exact h
-        have hs' : SplitOk S p.df lo' hi' ∧ ∀ i, i < p.df →
-            WidthOk S p sl' f (S.child lo' hi' p.df i).1 (S.child lo' hi' p.df i).2 := by
-          rcases hw' with h | h
-          · omega
-          · exact h
-        rw [content_union S p sl lo hi hs.1, content_union S p sl' lo' hi' hs'.1]
-        constructor
-        · rintro ⟨i, hid, hx⟩
-          have hne : slRange sl (S.child lo hi p.df i).1 (S.child lo hi p.df i).2 ≠ [] := by
-            intro he; rw [he] at hx; simp [pairs] at hx
-          cases hd : (build A S p sl f (S.child lo hi p.df i).1 (S.child lo hi p.df i).2).hash with
-          | none => exact absurd (hash_none_empty A S p sl f _ _ (hs.2 i hid) hd) hne
-          | some d =>
-            have hm : d ∈ (buildKids A S p sl f lo hi).filterMap Tree.hash :=
-              (mem_kids_hash A S p sl f lo hi d).mpr ⟨i, hid, hd⟩
-            rw [hk] at hm
-            obtain ⟨j, hj, hdj⟩ := (mem_kids_hash A S p sl' f lo' hi' d).mp hm
-            exact ⟨j, hj, (ih _ _ _ _ (hs.2 i hid) (hs'.2 j hj) (by rw [hd, hdj]) x).mp hx⟩
-        · rintro ⟨j, hj, hx⟩
-          have hne : slRange sl' (S.child lo' hi' p.df j).1 (S.child lo' hi' p.df j).2 ≠ [] := by
-            intro he; rw [he] at hx; simp [pairs] at hx
-          cases hd : (build A S p sl' f (S.child lo' hi' p.df j).1 (S.child lo' hi' p.df j).2).hash with
-          | none => exact absurd (hash_none_empty A S p sl' f _ _ (hs'.2 j hj) hd) hne
-          | some d =>
-            have hm : d ∈ (buildKids A S p sl' f lo' hi').filterMap Tree.hash :=
-              (mem_kids_hash A S p sl' f lo' hi' d).mpr ⟨j, hj, hd⟩
-            rw [← hk] at hm
-            obtain ⟨i, hid, hdi⟩ := (mem_kids_hash A S p sl f lo hi d).mp hm
-            exact ⟨i, hid, (ih _ _ _ _ (hs.2 i hid) (hs'.2 j hj) (by rw [hd, hdi]) x).mpr hx⟩
-      · rw [if_pos hc, if_neg hc'] at hh
-        exact absurd hh.symm (elems_ne_divided A hA _ _)
-    · by_cases hc' : (slRange sl' lo' hi').length > p.thr
-      · rw [if_neg hc, if_pos hc'] at hh
+    intro f' lo hi lo' hi' hw hw' hh x
+    rcases build_cases A S p sl 0 lo hi hw with ⟨_, hb⟩ | ⟨g, hg, _⟩
+    · rcases build_cases A S p sl' f' lo' hi' hw' with ⟨_, hb'⟩ | ⟨g', _, _, hb', _, _⟩
+      · rw [hb, hb'] at hh
+        rw [elemsHash_inj A hA _ _ hh]
+      · rw [hb, hb'] at hh
         exact absurd hh (elems_ne_divided A hA _ _)
-      · rw [if_neg hc, if_neg hc'] at hh
-        have := elemsHash_inj A hA _ _ hh
-        rw [this]
+    · omega
+  | succ f ih =>
+    intro f' lo hi lo' hi' hw hw' hh x
+    rcases build_cases A S p sl (f + 1) lo hi hw with ⟨_, hb⟩ | ⟨g, hg, _, hb, hs, hwk⟩
+    · rcases build_cases A S p sl' f' lo' hi' hw' with ⟨_, hb'⟩ | ⟨g', _, _, hb', _, _⟩
+      · rw [hb, hb'] at hh
+        rw [elemsHash_inj A hA _ _ hh]
+      · rw [hb, hb'] at hh
+        exact absurd hh (elems_ne_divided A hA _ _)
+    · have hgf : g = f := by omega
+      subst hgf
+      rcases build_cases A S p sl' f' lo' hi' hw' with ⟨_, hb'⟩ | ⟨g', _, _, hb', hs', hwk'⟩
+      · rw [hb, hb'] at hh
+        exact absurd hh.symm (elems_ne_divided A hA _ _)
+      · rw [hb, hb'] at hh
+        exact kids_match A S p hA sl sl' g g' lo hi lo' hi' hs hs' hwk hwk'
+          (fun i j hid hj he => ih g' _ _ _ _ (hwk i hid) (hwk' j hj) he) hh x
 
 /-- the digest of the elements of a range without a node against the digest of a canonical node -/
 theorem elems_vs_node_inj (hA : DigOk A) (sl sl' : List Elem) (f lo hi lo' hi' : Nat)
